@@ -95,6 +95,14 @@ FAMILIES = {
         "vh_cfg": {},
         "tiers": {"quick": {"rand": 48, "rlen": 120, "chunks": 8}, "thorough": {"rand": 1200, "rlen": 200, "chunks": 14}},
     },
+    "ledger": {   # whole-application token ledger (spec/Ledger.tla) on ABCI histories of the assembled app
+        "fix_all": ["refund", "passfee", "fullmint"], "seeded_replay": True, "vh_family": "chain",
+        "mc": {"module": "MCLedger", "cfg": {"quick": ["Ledger-mc-quick.cfg"], "thorough": ["Ledger-mc-quick.cfg", "Ledger-mc-2d.cfg", "Ledger-mc-thorough.cfg"]},
+               "timeout": {"quick": 300, "thorough": 900}},
+        "trace_module": "LedgerTrace", "trace_cfg": "Ledger-trace.cfg",
+        "vh_cfg": {"ledger": True},
+        "tiers": {"quick": {"rand": 48, "rlen": 150, "chunks": 8}, "thorough": {"rand": 1200, "rlen": 200, "chunks": 14}},
+    },
     "auth": {
         "fix_all": None,
         "mc": {"module": "Auth", "cfg": {"quick": "Auth-mc.cfg", "thorough": ["Auth-mc.cfg"]}, "timeout": {"quick": 120, "thorough": 300}},
@@ -301,3 +309,24 @@ PROPS = {
         "assumptions": COMMON_ASSUME + ["address-typed fields are recognised by field name", "the wasm clause calls wasmbinding.PerformPostFile directly; no contract is executed"],
     },
 }
+
+# Whole-application token ledger (family "ledger", spec/Ledger.tla): second family of the properties with a token-flow clause.
+# (formulas decided on ledger traces, non-triviality tag of LedgerTrace, design rules whose removal TLC must detect)
+_LG_MC = {"quick": ["Ledger-mc-quick.cfg"], "thorough": ["Ledger-mc-quick.cfg", "Ledger-mc-2d.cfg", "Ledger-mc-thorough.cfg"]}
+LEDGER = {
+    "C03": (["LG_StorKeeps"], "LG_C03", []),
+    "C04": (["LG_StorKeeps", "LG_FailFree", "LG_Conserve"], "LG_C04", []),
+    "C09": (["LG_RnsBacked", "LG_Conserve"], "LG_C09", [("refund", ["LG_RnsBacked"], "Ledger-mc-quick.cfg"), ("passfee", ["LG_RnsBacked"], "Ledger-mc-quick.cfg")]),
+    "C12": (["LG_GaugeHold"], "LG_C12", []),
+    "C13": (["LG_Supply", "LG_MintOut"], "LG_C13", [("fullmint", ["PStep"], "Ledger-mc-quick.cfg")]),
+    "C15": (["LG_CollBacked"], "LG_C15", []),
+    "C16": (["LG_FailFree"], "LG_C16", []),
+}
+for _pid, (_forms, _nt, _bugs) in LEDGER.items():
+    _p = PROPS[_pid]
+    _p["families"] = [_p.pop("family"), "ledger"]
+    _p["formulas"] = _p["formulas"] + _forms
+    _p.setdefault("per_family", {})["ledger"] = {"nt": _nt, "mc_cfg": _LG_MC, "bug_variants": _bugs}
+    _p["rule"] += ("; ledger family (whole application through ABCI, all modules' messages interleaved): class balances, open bids, collateral "
+                   "records and supply projected after every transaction and block; non-trivial = steps tagged " + _nt)
+
